@@ -2,4 +2,5 @@ pub mod c02;
 pub mod catalogue;
 pub mod cf;
 pub mod decl;
+pub mod random;
 pub use decl::*;
